@@ -181,3 +181,47 @@ static myth_thread_t h_custom_steal(int rank) {
   return myth_wsapi_runqueue_take(victim, h_decide, 0);
 }
 static inline void h_maybe_custom_steal(int prog, int W) { if (W >= 2 && prog % 5 == 4) myth_wsapi_set_stealfunc(h_custom_steal); }
+
+/* ---- sentinels: a second, independent object of the same type with one thread blocked on it for the whole program.  It is released by
+   main only at the very end; if it comes back earlier, a wake-up meant for the object under test went to the wrong object (state shared
+   between two independent objects).  Used by a third of the programs (prog % 3 == 2). ---- */
+typedef struct { int kind; volatile int released, returned, early; myth_thread_t th; myth_mutex_t m; myth_cond_t c; myth_barrier_t b; myth_join_counter_t j; myth_felock_t f; } h_sentinel_t;
+static void * h_sentinel_body(void * a) {
+  h_sentinel_t * s = (h_sentinel_t *)a;
+  switch (s->kind) {
+  case 4: myth_mutex_lock(&s->m); myth_mutex_unlock(&s->m); break;
+  case 5: myth_mutex_lock(&s->m); while (!s->released) myth_cond_wait(&s->c, &s->m); myth_mutex_unlock(&s->m); break;
+  case 6: myth_barrier_wait(&s->b); break;
+  case 7: myth_join_counter_wait(&s->j); break;
+  case 9: myth_felock_wait_and_lock(&s->f, 1); myth_felock_mark_and_signal(&s->f, 0); break;
+  }
+  if (!s->released) s->early = 1;
+  s->returned = 1;
+  return 0;
+}
+static inline void h_sentinel_start(h_sentinel_t * s, int kind, int prog) {
+  memset(s, 0x5A, sizeof *s); s->kind = (prog % (kind == 4 ? 6 : 3) == 2) ? kind : 0;   /* the mutex harness has many programs: every sixth */ s->released = s->returned = s->early = 0;
+  if (!s->kind) return;
+  switch (kind) {
+  case 4: h_mutex_init(&s->m, 1); myth_mutex_lock(&s->m); break;
+  case 5: h_mutex_init(&s->m, 0); h_cond_init(&s->c, 1); break;
+  case 6: h_barrier_init(&s->b, 0, 2); break;
+  case 7: h_join_counter_init(&s->j, 1, 1); break;
+  case 9: h_felock_init(&s->f, 0); break;
+  }
+  s->th = myth_create(h_sentinel_body, s);
+}
+static inline void h_sentinel_finish(h_sentinel_t * s) {
+  if (!s->kind) return;
+  MV_CHECK(!s->returned && !s->early, "the thread blocked on a second, independent object came back although that object was never released: a wake-up went to the wrong object");
+  mv_point(&s->released, sizeof(int)); s->released = 1;
+  switch (s->kind) {
+  case 4: myth_mutex_unlock(&s->m); break;
+  case 5: myth_mutex_lock(&s->m); myth_cond_signal(&s->c); myth_mutex_unlock(&s->m); break;
+  case 6: myth_barrier_wait(&s->b); break;
+  case 7: myth_join_counter_dec(&s->j); break;
+  case 9: myth_felock_wait_and_lock(&s->f, 0); myth_felock_mark_and_signal(&s->f, 1); break;
+  }
+  myth_join(s->th, 0);
+  MV_CHECK(s->returned && !s->early, "the thread blocked on the second object did not come back after that object was released");
+}
